@@ -44,6 +44,13 @@ class BudgetHit(SrxControl):
     pass
 
 
+class Hang(BaseException):
+    """the code under test did not return within the (non-solver) time allowed for one call"""
+
+
+IN_SOLVER = [0, 0.0]     # [depth, total seconds spent inside solver calls]
+
+
 # ----------------------------------------------------------------------------
 # global current context
 
@@ -1136,6 +1143,14 @@ class PathCtx:
     def _check(self, *extra):
         """portfolio: fresh (simplify, solve-eqs, nlsat) solver first, the incremental smt solver second"""
         t0 = time.time()
+        IN_SOLVER[0] += 1
+        try:
+            return self._check_inner(t0, *extra)
+        finally:
+            IN_SOLVER[0] -= 1
+            IN_SOLVER[1] += time.time() - t0
+
+    def _check_inner(self, t0, *extra):
         self.n_queries += 1
         self.ex.stats["queries"] += 1
         self._last_model = None
@@ -1402,8 +1417,18 @@ class PathCtx:
         k = math.trunc(v)
         if len(excl) + 1 > self.ex.max_int_choices:
             raise CutPath("int_enum_limit", "more than %d values of int()" % self.ex.max_int_choices)
-        self.ex.push_alt(self.decisions + [("intother", tuple(excl + [k]))], None)
         b = bucket(k)
+        # eager: is any other truncation feasible at all?
+        self.solver.push()
+        try:
+            for kk in excl:
+                self.solver.add((~bucket(kk)).z3())
+            self.solver.add((~b).z3())
+            r = self._check()
+        finally:
+            self.solver.pop()
+        if r != z3.unsat:
+            self.ex.push_alt(self.decisions + [("intother", tuple(excl + [k]))], None)
         self.pc_terms.append(b)
         self._add(b.z3())
         self.decisions.append(("int", k))
